@@ -108,7 +108,10 @@ def plain(v):
         return v.item()
     if isinstance(v, np.ndarray):
         return [plain(x) for x in v.tolist()]
-    if isinstance(v, (list, tuple)):
+    if isinstance(v, tuple):
+        # kept distinct from lists: the library's == distinguishes them
+        return tuple(plain(x) for x in v)
+    if isinstance(v, list):
         return [plain(x) for x in v]
     if isinstance(v, dict):
         return {k: plain(x) for k, x in v.items()}
